@@ -63,6 +63,8 @@ switch("C09", "lateral-null-correlation-drops-outer-row", "lateral_null_outer_dr
 
 # engine errors on valid statements
 errmsg("C01", "text-in-subquery-identity-cast-error", "Cast function 'S' cannot handle source type UtfN", "text IN / op ANY / op ALL (subquery) fails: the planner inserts an identity cast Utf8->Utf8 which no cast function accepts", "SELECT 'x' IN (SELECT b FROM t)", ["C09", "C06", "C02", "C03", "C13"])
+errmsg("C01", "date-in-subquery-identity-cast-error", "Cast function 'S' cannot handle source type DateN", "date IN (subquery) fails with an identity cast Date32->Date32 (same defect as text-in-subquery-identity-cast-error)", "SELECT l.id FROM l WHERE l.k IN (SELECT k FROM r)  -- k DATE", ["C09", "C06", "C02", "C03", "C13"])
+errmsg("C01", "bool-in-subquery-identity-cast-error", "Cast function 'S' cannot handle source type Boolean", "boolean IN (subquery) fails with an identity cast Boolean->Boolean (same defect as text-in-subquery-identity-cast-error)", "SELECT l.id FROM l WHERE l.k IN (SELECT k FROM r)  -- k BOOLEAN", ["C09", "C06", "C02", "C03", "C13"])
 errmsg("C01", "order-by-alias-of-ungrouped-aggregate", "Column 'S' must appear in the GROUP BY clause or be used in an aggregate function", "ORDER BY <alias of an aggregate> fails when the query has aggregates but no GROUP BY", "SELECT max(a) AS m FROM t ORDER BY m", ["C08", "C02", "C03"])
 errmsg("C01", "planner-table-ref-invalid", "Table ref is invalid. Left: [TableRef..], right: [TableRef..], got: TableRef { table_idx: N }", "planner error on a valid 3-way join: CROSS JOIN followed by LEFT/RIGHT JOIN whose ON references both earlier tables", "SELECT t1.k FROM t0 t1 CROSS JOIN t0 t2 LEFT JOIN t0 t3 ON (t1.c0 = t3.a0 AND t1.a0 = t3.b)", ["C06", "C02", "C03", "C09"])
 errmsg("C01", "planner-missing-left-rel-id", "Missing left rel id", "join reordering fails ('Missing left rel id') on valid joins mixing SEMI/INNER joins and subqueries", "SELECT .. FROM t0 t1 JOIN t0 t2 USING (k) SEMI JOIN t0 t3 ON (t1.k = t3.k AND t2.k <> t3.k) WHERE t2.k >= ANY (SELECT ..)", ["C06", "C02", "C03", "C09"])
